@@ -256,3 +256,66 @@ Fixpoint fb_walk (defs : list (text * fbdecl)) (inst : list (text * text)) (fs :
   | _ :: r => fb_walk defs inst r
   end.
 Definition rule_fb_call (fs : list fact) : list diag := fb_walk (fb_defs fs) [] fs.
+
+(* ---- xform_resolve_late_bound_type_initializer: every initializer that names a type not known while parsing is
+        replaced by the initializer kind of that type; a name that is no elementary type, no (unsupported) standard
+        function block and no declared type is reported (P0022), all of them; a declared type of a kind the
+        transformation does not handle yet stops it ('not implemented').  The type table holds the data types (alias
+        declarations still unresolved are not entered) and the function blocks; a second declaration of a name stops
+        the walk (P0020). ---- *)
+Inductive tkind := TkEnum | TkSubrange | TkSimple | TkArray | TkStruct | TkStructInit | TkString | TkLateBound | TkFB.
+Inductive tfact :=
+  | TDecl (name : text) (k : tkind) (pos : N)
+  | TInit (k : ikind) (ty : text) (pos : N).       (* for IkLate: the type name and where it is written *)
+
+Fixpoint tlookup (k : text) (m : list (text * tkind)) : option tkind :=
+  match m with
+  | [] => None
+  | (k', d) :: r => if text_eqb k k' then Some d else tlookup k r
+  end.
+
+Fixpoint type_table (fs : list tfact) (acc : list (text * tkind)) : list (text * tkind) + diag :=
+  match fs with
+  | [] => inl acc
+  | TDecl n TkLateBound _ :: r => type_table r acc
+  | TDecl n k pos :: r =>
+      match tlookup (key n) acc with
+      | Some _ => inr (P_DefinitionNameDuplicated, pos)
+      | None => type_table r (acc ++ [(key n, k)])
+      end
+  | TInit _ _ _ :: r => type_table r acc
+  end.
+
+Inductive rres := RKind (k : ikind) | RUndeclared | RTodo.
+Definition resolve1 (tab : list (text * tkind)) (ty : text) : rres :=
+  if mem (key ty) elementary_types then RKind IkSimple
+  else if mem (key ty) unsupported_types then RKind IkFB
+  else match tlookup (key ty) tab with
+       | Some TkEnum => RKind IkEnumType
+       | Some TkFB => RKind IkFB
+       | Some TkStruct => RKind IkStruct
+       | Some TkString => RKind IkString
+       | Some TkArray => RKind IkArray
+       | Some _ => RTodo
+       | None => RUndeclared
+       end.
+
+(* the fold: the new initializer kinds in order, or the diagnostics *)
+Fixpoint resolve_go (tab : list (text * tkind)) (fs : list tfact) (ds : list diag) (ks : list ikind) : list ikind + list diag :=
+  match fs with
+  | [] => match ds with [] => inl (rev ks) | _ => inr (rev ds) end
+  | TInit IkLate ty pos :: r =>
+      match resolve1 tab ty with
+      | RKind k => resolve_go tab r ds (k :: ks)
+      | RUndeclared => resolve_go tab r ((P_UndeclaredUnknownType, pos) :: ds) (IkLate :: ks)
+      | RTodo => match ds with [] => inr [todo_diag] | _ => inr (rev ds) end
+      end
+  | TInit k _ _ :: r => resolve_go tab r ds (k :: ks)
+  | TDecl _ _ _ :: r => resolve_go tab r ds ks
+  end.
+
+Definition xform_type_init (fs : list tfact) : list ikind + list diag :=
+  match type_table fs [] with
+  | inr d => inr [d]
+  | inl tab => resolve_go tab fs [] []
+  end.
